@@ -5,4 +5,6 @@ CONSTANTS
  Plans <- MCPlans
  Fixes <- MCFixes
  Alphabet <- MCAlphabet
- K = 2
+ K = 3
+INVARIANT C01_Lifecycle
+PROPERTY C01_TerminalFinal
